@@ -45,7 +45,7 @@ def body(ck):
         def log_video(self, *a, **k): pass
         def close(self): pass
 
-    ck.rule = ("DQN: target_update_interval in {1,2,3,4,7} x num_envs {1,2} x 6-9 iterations; SAC: policy_frequency {1,2,3} x autotune {on,off} x tau {0.005,0.25,1.0} x 5-7 iterations; "
+    ck.rule = ("DQN: target_update_interval in {1,2,3,4,7} x num_envs {1,2} x 6-9 iterations; SAC: policy_frequency {1,2,3,4} x autotune {on,off} x tau {0.005,0.25,1.0} x initial_alpha {1e-9..150} x 5-7 iterations; "
                "learn(): (total_timesteps, num_envs, num_steps) grid incl. non-divisible budgets; non-trivial = at least one target copy AND one non-copy iteration (DQN) / one gated and one ungated iteration (SAC)")
     ck.assumptions = ["bitwise equality of parameter leaves is used to observe 'copied' / 'unchanged'; 'changed' is only ever required to imply the gate, never asserted",
                       "the Polyak identity is recomputed from the observed online and previous target leaves with the same float32 expression tau*o + (1-tau)*t"]
@@ -74,14 +74,16 @@ def body(ck):
         ck.case_seen(("dqn", interval, N, K) if (interval > 1 and K >= interval) else None, sample=j); ck.count("dqn_runs"); ck.count("dqn_iterations", K)
     penv = TimeLimit(Pendulum(), 20)
     # num_steps > 1 with a common factor with policy_frequency matters: the gate must count iterations, not environment steps
-    sac_cfgs = ([(2, True, 0.25, 2), (3, False, 0.005, 1), (4, True, 0.25, 2)] if quick else
-                [(1, True, 0.005, 1), (2, True, 0.25, 2), (3, True, 1.0, 3), (2, False, 0.005, 4), (3, False, 0.25, 1), (4, True, 0.25, 2), (2, True, 0.5, 3)])
-    for freq, autotune, tau, nsteps in sac_cfgs:
+    # fixed temperatures far from the default (1e-6, 20): with autotuning off the stored temperature must not move at all
+    sac_cfgs = ([(2, True, 0.25, 2, 0.2), (3, False, 0.005, 1, 1e-6), (4, True, 0.25, 2, 5.0), (2, False, 0.25, 2, 20.0)] if quick else
+                [(1, True, 0.005, 1, 0.2), (2, True, 0.25, 2, 1e-3), (3, True, 1.0, 3, 0.2), (2, False, 0.005, 4, 20.0), (3, False, 0.25, 1, 1e-6),
+                 (4, True, 0.25, 2, 5.0), (2, True, 0.5, 3, 0.2), (1, False, 0.25, 1, 1e-9), (2, False, 0.25, 2, 0.2), (3, False, 0.5, 2, 150.0)])
+    for freq, autotune, tau, nsteps, alpha0 in sac_cfgs:
         K = int(rng.integers(5, 8))
         algo = SAC(buffer_size=128, learning_starts=8, num_envs=2, num_steps=nsteps, batch_size=4, tau=tau, policy_frequency=freq, autotune=autotune,
-                   q_width_size=8, q_depth=1, policy_lr=1e-2, q_lr=1e-2)
+                   initial_alpha=alpha0, q_width_size=8, q_depth=1, policy_lr=1e-2, q_lr=1e-2)
         pol = MLPSACPolicy(env=penv, key=jr.key(int(rng.integers(0, 1000))), feature_size=8, width_size=8, depth=1)
-        ck.current_case = {"algo": "SAC", "policy_frequency": freq, "autotune": autotune, "tau": tau, "num_steps": nsteps, "K": K}
+        ck.current_case = {"algo": "SAC", "policy_frequency": freq, "autotune": autotune, "tau": tau, "num_steps": nsteps, "K": K, "initial_alpha": alpha0}
         st = algo.reset(penv, pol, key=jr.key(2), callback=cb)
         it = eqx.filter_jit(lambda s, k: algo.iteration(s, key=k, callback=cb))
         obs = []
@@ -97,9 +99,9 @@ def body(ck):
                         pol_ok = False
             obs.append((int(st.iteration_count), pol_ok, not same(st.policy, prev.policy), not np.array_equal(np.asarray(st.log_alpha), np.asarray(prev.log_alpha))))
         lit = f"CSac {freq}%nat {bl(autotune)} {listl('(' + zl(c) + ', ' + bl(a) + ', ' + bl(b) + ', ' + bl(d) + ')' for c, a, b, d in obs)}"
-        j = {"algo": "SAC", "policy_frequency": freq, "autotune": autotune, "tau": tau, "num_steps": nsteps, "iterations": K, "impl[count,polyak_ok,actor_changed,alpha_changed]": obs}
+        j = {"algo": "SAC", "policy_frequency": freq, "autotune": autotune, "tau": tau, "num_steps": nsteps, "initial_alpha": alpha0, "iterations": K, "impl[count,polyak_ok,actor_changed,alpha_changed]": obs}
         cases.append(lit); cj.append(j)
-        ck.case_seen(("sac", freq, autotune, tau) if (freq > 1 and K > freq) else None, sample=j); ck.count("sac_runs"); ck.count("sac_iterations", K)
+        ck.case_seen(("sac", freq, autotune, tau, alpha0) if (freq > 1 and K > freq) else None, sample=j); ck.count("sac_runs"); ck.count("sac_iterations", K)
     # learn(): number of records and cumulative steps
     grid = [(40, 2, 4), (37, 1, 5), (7, 2, 4)] if quick else [(40, 2, 4), (37, 1, 5), (7, 2, 4), (64, 4, 4), (50, 3, 4), (9, 1, 3)]
     for total, N, T in grid:
